@@ -8,6 +8,7 @@ import (
 	"os"
 	"path/filepath"
 	"runtime"
+	"runtime/debug"
 	"runtime/pprof"
 	"sort"
 	"strconv"
@@ -24,19 +25,20 @@ import (
 
 // Task is one symbolic exploration of a harness function with concrete parameters.
 type Task struct {
-	Pkg      string   // package path below the module root ("" = root)
-	Func     string   // harness function
-	Args     []int64  // concrete parameters
-	Note     string   // what the parameters mean
-	NoMerge  bool     // disable state merging (pure forking)
-	MaxPaths int      // 0 = default
-	Unwind   int      // per-block visit bound (0 = default)
-	Backends []string // obligation back ends (default z3)
-	Timeout  int      // obligation timeout seconds (0 = tier default)
-	Fresh    bool     // send obligations straight to fresh solver processes
-	Confirm  string   // known-finding id to confirm (explore only its region)
-	GFMul    bool     // summarise GenericGF.Multiply as the polynomial product (validated by C04)
-	NoReach  bool     // harness has no Reach witness (e.g. totality harness where every path may end early)
+	Pkg      string            // package path below the module root ("" = root)
+	Func     string            // harness function
+	Args     []int64           // concrete parameters
+	Note     string            // what the parameters mean
+	NoMerge  bool              // disable state merging (pure forking)
+	MaxPaths int               // 0 = default
+	Unwind   int               // per-block visit bound (0 = default)
+	Backends []string          // obligation back ends (default z3)
+	Timeout  int               // obligation timeout seconds (0 = tier default)
+	Fresh    bool              // send obligations straight to fresh solver processes
+	Confirm  string            // known-finding id to confirm (explore only its region)
+	Redirect map[string]string // "pkg.Func" -> "pkg.Func": calls to the key run the value instead (stub, part of the claim)
+	GFMul    bool              // summarise GenericGF.Multiply as the polynomial product (validated by C04)
+	NoReach  bool              // harness has no Reach witness (e.g. totality harness where every path may end early)
 }
 
 func (t Task) String() string {
@@ -87,6 +89,7 @@ func loadKnown() []KnownFinding {
 }
 
 func main() {
+	debug.SetGCPercent(250)
 	if len(os.Args) < 2 {
 		fmt.Fprintln(os.Stderr, "usage: gzv check <ID> [--tier quick|thorough] | run ... | replay <file> | selftest | list")
 		os.Exit(2)
@@ -128,6 +131,7 @@ func cmdRun(args []string) int {
 	fresh := fs.Bool("fresh", false, "")
 	gfmul := fs.Bool("gfmul", false, "")
 	backends := fs.String("backends", "", "comma-separated obligation back ends")
+	redirect := fs.String("redirect", "", "from=to,...")
 	fs.Parse(args)
 	var ints []int64
 	if *argStr != "" {
@@ -145,6 +149,12 @@ func cmdRun(args []string) int {
 		fmt.Fprintln(os.Stderr, err)
 		return 2
 	}
+	if os.Getenv("GZV_MEM") != "" {
+		var ms runtime.MemStats
+		runtime.GC()
+		runtime.ReadMemStats(&ms)
+		fmt.Fprintf(os.Stderr, "heap after load: %d MB (sys %d MB)\n", ms.HeapAlloc>>20, ms.Sys>>20)
+	}
 	if pf := os.Getenv("GZV_PROF"); pf != "" {
 		f, _ := os.Create(pf)
 		pprof.StartCPUProfile(f)
@@ -153,6 +163,13 @@ func cmdRun(args []string) int {
 	t := Task{Pkg: *pkg, Func: *fn, Args: ints, NoMerge: *nomerge, Confirm: *confirm, Fresh: *fresh, GFMul: *gfmul}
 	if *backends != "" {
 		t.Backends = strings.Split(*backends, ",")
+	}
+	if *redirect != "" {
+		t.Redirect = map[string]string{}
+		for _, kv := range strings.Split(*redirect, ",") {
+			p := strings.SplitN(kv, "=", 2)
+			t.Redirect[p[0]] = p[1]
+		}
 	}
 	r := runTasks(P, []Task{t}, "quick", 1, *trace, "DBG")[0]
 	printTaskResult(r)
@@ -312,6 +329,16 @@ func runOne(P *Program, m *sx.Machine, t Task, tier string, known []KnownFinding
 	}
 	m.FreshFirst = t.Fresh
 	m.SummarizeGFMul = t.GFMul
+	m.Redirect = map[*ssa.Function]*ssa.Function{}
+	for from, to := range t.Redirect {
+		ff, e1 := P.lookupQualified(from)
+		tf, e2 := P.lookupQualified(to)
+		if e1 != nil || e2 != nil {
+			res.Err = fmt.Sprintf("redirect %s -> %s: %v %v", from, to, e1, e2)
+			return res
+		}
+		m.Redirect[ff] = tf
+	}
 	m.OblTimeout = 30 * time.Second
 	if tier == "thorough" {
 		m.OblTimeout = 300 * time.Second
